@@ -24,6 +24,7 @@ from hypothesis import strategies as st
 from . import boot                                    # noqa: F401
 from .runner import CaseResult, Part, exc_sig
 from . import c10_harness as H
+from . import c10_named
 
 PID  = 'C10'
 RULE = ('cases = one task description (probe executable; 0-6 arguments and 0-4 environment '
@@ -221,7 +222,8 @@ def cases():
 
 
 def parts(tier):
-    return [Part('task_scripts', cases(), quick=400, thorough=3500)]
+    return [Part('named_environments', enum=c10_named.enum_cases),
+            Part('task_scripts', cases(), quick=400, thorough=3500)]
 
 
 # ------------------------------------------------------------------------------
@@ -333,6 +335,8 @@ def _valid_cmd(cmd):
 
 def normalise(case):
     """repair what the minimiser may have broken; None = not a case"""
+    if isinstance(case, dict) and case.get('kind') == 'named_env':
+        return case if case.get('module') in c10_named.MODULES and case.get('cls') else None
     try:
         c = dict(case)
         for k, v in (('ranks', 1), ('layout', 0), ('sandbox', 'default'), ('use_mpi', None),
@@ -407,6 +411,8 @@ def _first_class(text):
 
 
 def run_case(case):
+    if isinstance(case, dict) and case.get('kind') == 'named_env':
+        return c10_named.run(case)
     res  = CaseResult()
     case = normalise(case)
     if case is None:
